@@ -248,6 +248,10 @@ func phaseTables(w *World, r *Report, prop string) {
 				var hit *site
 				for i := range wsites {
 					if instrReaches(rs.ins, wsites[i].ins) {
+						// the read is the duplicate test of this very insertion (made by a checking helper whose verdict decides it)
+						if readIsGuardOfInsertion(rs.ins, wsites[i].ins, t, func(g *ssa.Function) bool { return use[g] != nil && use[g].reads[t] }, w) {
+							continue
+						}
 						hit = &wsites[i]
 						break
 					}
@@ -416,29 +420,12 @@ func c12PositionRecorded(w *World, r *Report) {
 	seenKind := map[string]bool{}
 	for _, fn := range fns {
 		forEachInstr(fn, func(b *ssa.BasicBlock, ins ssa.Instruction) {
-			st, ok := ins.(*ssa.Store)
-			if !ok {
+			// the line of a diagnostic: stored into the record here, or handed to the routine that builds the record (a reporter
+			// made for a position)
+			holder := diagLineHolder(ins)
+			if holder == nil {
 				return
 			}
-			fa, ok := st.Addr.(*ssa.FieldAddr)
-			if !ok {
-				return
-			}
-			if tn, f, _, _ := fieldOf(fa); tn != "SyntaxError" || f != "Line" {
-				return
-			}
-			ld, ok := stripIdentity(st.Val).(*ssa.UnOp)
-			if !ok || ld.Op != token.MUL {
-				return
-			}
-			lfa, ok := ld.X.(*ssa.FieldAddr)
-			if !ok {
-				return
-			}
-			if tn, f, _, _ := fieldOf(lfa); tn != "Field" || f != "Line" {
-				return
-			}
-			holder := stripIdentity(lfa.X)
 			// the kind under which the diagnostic is raised: a checked assertion on holder.Attr that dominates the block - here or,
 			// when the field is a parameter, at every call site
 			var kindAt func(fn *ssa.Function, holder ssa.Value, b *ssa.BasicBlock, depth int) string
